@@ -98,10 +98,13 @@ def check_uniqueness_constraint(m, kind=None):
         for identifier in metaclass.indices:
             id_map[identifier] = dict()
                 
+        # attribute names are case insensitive, an identifier may have been
+        # defined using another spelling than the class
+        identifying = set(n.upper() for n in metaclass.identifying_attributes)
         for inst in metaclass.select_many():
             # Check for null-values
             for name, ty in metaclass.attributes:
-                if name not in metaclass.identifying_attributes:
+                if name.upper() not in identifying:
                     continue
                 
                 value = getattr(inst, name)
